@@ -290,6 +290,15 @@ theorem translated_load_u64_le (b : Bytes) : Gen.Utils.load_u64_le b = le (b.tak
 theorem translated_load_u32_le (b : Bytes) : Gen.Utils.load_u32_le b = le (b.take 4) :=
   Proofs.GenUtils.load_u32_le_eq_le b
 
+/-- `increment_bytes` / `sodium_increment` as translated (byte loop with a u16 carry) = the model, for every length;
+the checked `carry += *b as u16` never overflows -/
+theorem translated_increment_bytes (bs : Bytes) : Gen.Utils.increment_bytes bs = Model.Utils.incrementBytes bs :=
+  Proofs.GenUtils.increment_bytes_eq_model bs
+
+/-- `xor_buf` as translated = the model (xor of the common prefix, the rest of `out` unchanged) -/
+theorem translated_xor_buf (out inp : Bytes) : Gen.Utils.xor_buf out inp = Model.Utils.xorBuf out inp :=
+  Proofs.GenUtils.xor_buf_eq_model out inp
+
 theorem translated_pad16 (n : Nat) : Gen.Utils.pad16 n = Model.Utils.pad16 n :=
   Proofs.GenUtils.pad16_eq_model n
 
